@@ -48,6 +48,11 @@ THEOREMS = [
     "SleapVerif.C18.sampleOfRaw_eq",
     "SleapVerif.C18.np_chunks_rewrite_independent_of_directory_state",
     "SleapVerif.C18.np_chunks_existing_serves_directory",
+    "SleapVerif.C18.np_chunks_existing_dirty_counterexample",
+    "SleapVerif.C18.val_glue_only_padding",
+    "SleapVerif.C18.val_glue_counterexample",
+    "SleapVerif.C18.datapipe_sizematcher_partial",
+    "SleapVerif.C18.datapipe_sizematcher_counterexample",
     "SleapVerif.C18.targets_from_same_points",
     "SleapVerif.C18.targets_agree_scale1",
     "SleapVerif.C18.targets_agree_any_scale",
@@ -71,11 +76,15 @@ THEOREMS = [
     "SleapVerif.C18.defaults_agree_where_shared",
 ]
 
-IMG_TOL_Q = 1.0 / 255 + 1e-6      # one 8-bit round trip
-IMG_TOL = 1e-5                    # same operations, same order, no quantisation in between
+IMG_TOL_Q = 1.0 / 255 + 1e-6      # one 8-bit round trip (between frameworks; model vs framework only when a crop box is inexact)
+IMG_TOL = 2e-6                    # same operations in the same order, `quant8` in the same place
 MTS = ["single", "centroid", "centered", "bottomup"]
 FWS = ["mem", "np", "stream"]
 ASSET = "tests/assets/minimal_instance.pkg.slp"
+
+class ProviderMismatch(Exception):
+    pass
+
 
 E = {}  # lazily filled environment (torch, repo symbols)
 LAST_CASE = {}
@@ -124,6 +133,8 @@ def setup_env():
         def exists(self, *a, **k):
             return True
 
+    from loguru import logger as _lg
+    _lg.disable("sleap_nn.data.resizing")     # SizeMatcher logs an error before raising on a larger frame
     base = sio.load_slp(str(REPO / ASSET))
     E.update(np=np, torch=torch, sio=sio, ld=ld, F=F, T=T, tvf=tvf, crop_and_resize=crop_and_resize,
              DictConfig=DictConfig, ArrayBackend=ArrayBackend, MemVideo=MemVideo,
@@ -253,6 +264,14 @@ def run_frameworks(spec, cfg, tmp, np_dir=None, np_existing=False):
     probe = build_labels(spec)
     max_hw = prov.get_max_height_width(probe)          # what ModelTrainer hands to every framework
     max_inst = prov.get_max_instances(probe)
+    # the two providers are cross-checked against the spec (they feed the model AND every framework)
+    want_hw = (max(v["h"] for v in spec["videos"]), max(v["w"] for v in spec["videos"]))
+    want_inst = max(len(fr["insts"]) for fr in spec["frames"])
+    if tuple(max_hw) != want_hw or max_inst != want_inst:
+        raise ProviderMismatch(f"providers: get_max_height_width={max_hw} (spec {want_hw}), get_max_instances={max_inst} (spec {want_inst})")
+    if cfg.get("max_hw"):                               # a validation set gets the TRAIN labels' maximum
+        max_hw = tuple(cfg["max_hw"])
+    chunk_inst = cfg.get("chunk_max_inst") or max_inst  # get_bin_files: train maximum for val chunks too
     out, counts = {}, {}
     for fw in ("mem", "np"):
         # `np_dir`: a chunk directory that may already hold another dataset's files; `np_existing`:
@@ -282,13 +301,13 @@ def run_frameworks(spec, cfg, tmp, np_dir=None, np_existing=False):
             return [gc.single_instance_data_chunks(x, data_config=dc, max_hw=max_hw,
                                                    user_instances_only=uio, scale=scale)]
         if mt == "bottomup":
-            return [gc.bottomup_data_chunks(x, data_config=dc, max_instances=max_inst, max_hw=max_hw,
+            return [gc.bottomup_data_chunks(x, data_config=dc, max_instances=chunk_inst, max_hw=max_hw,
                                             user_instances_only=uio, scale=scale)]
         if mt == "centroid":
-            return [gc.centroid_data_chunks(x, data_config=dc, max_instances=max_inst,
+            return [gc.centroid_data_chunks(x, data_config=dc, max_instances=chunk_inst,
                                             anchor_ind=cfg["anchor"], max_hw=max_hw,
                                             user_instances_only=uio, scale=scale)]
-        return list(gc.centered_instance_data_chunks(x, data_config=dc, max_instances=max_inst,
+        return list(gc.centered_instance_data_chunks(x, data_config=dc, max_instances=chunk_inst,
                                                      crop_size=tuple(cfg["crop"]), anchor_ind=cfg["anchor"],
                                                      max_hw=max_hw, user_instances_only=uio, scale=scale))
 
@@ -539,7 +558,15 @@ def compare_model(mt, m, c, raw, exact, mag):
     got = interp(m["img"], raw)
     if tuple(got.shape[-3:]) != m["shape"]:
         diffs.append(f"interpreter shape {tuple(got.shape)} vs model shape {m['shape']}")
-    e = close_img(got.float(), c["img"], IMG_TOL_Q if has_quant(m["img"]) else IMG_TOL)
+    # The interpreter performs the very ToPILImage/ToTensor round trip where the term says, so the real
+    # sample must match it tightly: this is what ties the POSITION and NUMBER of `quant8` to the code.
+    # Only a centred-instance term whose crop box is not exactly representable in float32 may flip a
+    # quantisation level after box rounding; there the one-level tolerance applies.
+    # Without `quant8` an inexact box still moves the bilinear sample points by a float32 ulp of the frame
+    # coordinate (≤ ~1e-7·mag px, image gradient ≤ 1 per px).
+    inexact_box = mt == "centered" and not exact
+    tol = IMG_TOL if not inexact_box else (IMG_TOL_Q if has_quant(m["img"]) else IMG_TOL + 1e-7 * mag)
+    e = close_img(got.float(), c["img"], tol)
     if e:
         diffs.append(f"image: {e} [{m['img_src']}]")
     for key, val in (("inst", insts_tensor(m["inst"])), ("cen", pts_tensor(m["cen"])), ("bbox", pts_tensor(m["bbox"]))):
@@ -560,10 +587,23 @@ def compare_model(mt, m, c, raw, exact, mag):
     return diffs
 
 
-def oracle(mt, cs, has_empty, mag):
-    """Property C18 on the three frameworks' canonical samples (one index). → list of failures."""
+def split_padding(t, n):
+    """(first n rows, are the remaining rows all NaN?)"""
+    torch = E["torch"]
+    return t[:n], bool(torch.isnan(t[n:]).all()) if t.shape[0] > n else True
+
+
+def oracle(mt, cs, has_empty, mag, sig_eff=1.0, pad_ok=False):
+    """Property C18 on the three frameworks' canonical samples (one index). → list of failures.
+    `sig_eff`: smallest Gaussian width of the targets (a point moved by d moves a target value by at
+    most ~0.61·d/σ); `pad_ok`: the chunk functions were handed another `max_instances` than the torch
+    dataset computed (val glue): rows beyond `num_instances` must be all-NaN on both sides and only
+    the first `num_instances` rows are compared."""
+    torch = E["torch"]
     fails = []
     a = cs["mem"]
+    p_tol = 4e-7 * mag                          # float32 noise of a coordinate at frame magnitude
+    t_tol = 1e-5 + 0.7 * (p_tol + 1e-5) / max(sig_eff, 0.25)
     for fw in ("np", "stream"):
         b = cs[fw]
         e = close_img(a["img"], b["img"], IMG_TOL_Q)
@@ -571,15 +611,25 @@ def oracle(mt, cs, has_empty, mag):
             fails.append(f"image mem vs {fw}: {e}")
         keys = {"single": ["inst"], "bottomup": ["inst"], "centroid": ["cen"], "centered": ["inst", "cen", "bbox"]}[mt]
         for k in keys:
-            e = close_pts(a[k], b[k], 1e-5, 1e-6 * mag)
+            x, y = a[k], b[k]
+            if pad_ok and fw == "stream" and mt in ("bottomup", "centroid") and a["n"] == b["n"]:
+                (x, okx), (y, oky) = split_padding(x, a["n"]), split_padding(y, b["n"])
+                if not (okx and oky):
+                    fails.append(f"{k} mem vs {fw}: rows beyond num_instances are not all NaN")
+            e = close_pts(x, y, 1e-5, 1e-6 * mag)
             if e:
                 fails.append(f"{k} mem vs {fw}: {e}")
         for i, (x, y) in enumerate(zip(a["tgt"], b["tgt"])):
-            e = close_img(x, y, 1e-5)
+            e = close_img(x, y, t_tol)
             if e:
                 fails.append(f"target#{i} mem vs {fw}: {e}")
         if not (mt == "centered" and has_empty) and a["n"] != b["n"]:
             fails.append(f"num_instances mem {a['n']} vs {fw} {b['n']}")
+    # np and stream quantise the same pixels (padding zeros commute with the round trip): the two are
+    # EQUAL, not merely within a level of each other (`np_stream_pixels_equal`)
+    e = close_img(cs["np"]["img"], cs["stream"]["img"], 1e-7)
+    if e:
+        fails.append(f"image np vs stream (must be equal): {e}")
     return fails
 
 
@@ -597,7 +647,7 @@ def gen_points(rng, h, w, n_nodes, p_missing):
     return pts
 
 
-def gen_case(rng, mt=None, scale=None, cfg_override=False, extra=None):
+def gen_case(rng, mt=None, scale=None, cfg_override=False, extra=None, max_hw_mode=False):
     """`cfg_override`: the config sets max_height and/or max_width (each component on its own);
     `extra="single_extra"`: single-animal labels in which one frame carries a second, empty instance
     (get_max_instances = 2; region of F-C18b); `extra="all_empty"`: one more labelled frame whose
@@ -661,7 +711,7 @@ def gen_case(rng, mt=None, scale=None, cfg_override=False, extra=None):
                       {"video": vi, "t": t, "insts": [[None] * n_nodes] * rng.choice([1, 2])})
     spec = {"n_nodes": n_nodes, "edges": edges, "videos": videos, "frames": frames}
     if scale is None:
-        scale = rng.choice([1.0, 1.0, 1.0, 0.5, 0.5, 0.25, 0.75, 1.5, 2.0, 0.625, 1.25])
+        scale = rng.choice([1.0, 1.0, 1.0, 0.5, 0.5, 0.25, 0.75, 1.5, 2.0, 0.625, 1.25, 0.3, 0.7, 0.9, 1.1])
     cfg = {"mt": mt, "is_rgb": rng.random() < 0.5, "scale": scale,
            "max_stride": rng.choice([1, 2, 8, 16, 16, 32]),
            "crop": rng.choice([(32, 32), (48, 48), (64, 64), (40, 56), (47, 47), (24, 24)]),
@@ -672,8 +722,25 @@ def gen_case(rng, mt=None, scale=None, cfg_override=False, extra=None):
     if cfg_override:
         H, W = max(s[0] for s in sizes), max(s[1] for s in sizes)
         cfg["cfg_max"] = rng.choice([(H + 24, W + 40), (H, W + 16), (H * 2, W * 2), (H + 8, W),
-                                     (None, W + 32), (H + 16, None), (None, W * 2), (H * 2, None)])
+                                     (None, W + 32), (H + 16, None), (None, W * 2), (H * 2, None),
+                                     # smaller than the frames: the down-scaling branch of apply_sizematcher
+                                     (H * 3 // 4, W * 3 // 4), (H // 2, W // 2), (H - 16, W), (None, W - 24),
+                                     (H * 5 // 8, None), (H - 8, W + 16), (H + 16, W * 3 // 4)])
+    if max_hw_mode:
+        # the validation dataset is handed the TRAIN labels' max_hw (model_trainer.py): smaller, larger, mixed
+        H, W = max(s[0] for s in sizes), max(s[1] for s in sizes)
+        cfg["max_hw"] = rng.choice([(H * 3 // 4, W * 3 // 4), (H // 2, W // 2), (H + 32, W + 16), (H - 12, W + 20),
+                                    (H * 2, W * 2), (H, W - 28)])
     return spec, cfg
+
+
+def sizematch_tag(spec, cfg, max_hw, fr):
+    v = spec["videos"][fr["video"]]
+    th, tw = target_hw(cfg, max_hw)
+    if (v["h"], v["w"]) == (th, tw):
+        return "none"
+    r = min(Fraction(th, v["h"]), Fraction(tw, v["w"]))
+    return "up" if r > 1 else "down" if r < 1 else "pad_only"
 
 
 def target_hw(cfg, max_hw):
@@ -688,7 +755,7 @@ def model_line(fw, spec, cfg, fr, k, max_hw, max_inst, alias):
     cm_h, cm_w = cfg["cfg_max"] if cfg["cfg_max"] else (None, None)
     toks = ["sample", fw, cfg["mt"], "1" if cfg["is_rgb"] else "0", str(max_hw[0]), str(max_hw[1]),
             o(cm_h), o(cm_w), rat(float(cfg["scale"])), str(cfg["max_stride"]), str(cfg["crop"][0]),
-            str(cfg["crop"][1]), o(cfg["anchor"]), str(max_inst), "1" if alias else "0", "1" if cfg.get("uio", True) else "0",
+            str(cfg["crop"][1]), o(cfg["anchor"]), str(max_inst), o(cfg.get("chunk_max_inst")), "1" if alias else "0", "1" if cfg.get("uio", True) else "0",
             rat(float(cfg["cm"][0])), str(cfg["cm"][1]), rat(float(cfg["paf"][0])), str(cfg["paf"][1]),
             str(len(spec["edges"]))] + [f"{u} {w}" for u, w in spec["edges"]]
     toks += [str(v["h"]), str(v["w"]), str(v["c"]), str(k), labelled_line(fr)]
@@ -708,7 +775,9 @@ def sample_index(spec, mt, uio=True):
 
 
 def knife_edge(spec, cfg, max_hw):
-    """`round()` of a size exactly on .5, or `int()` of a size whose product is not exact."""
+    """`round()` of a size-matched side exactly on .5 (the only place where exact rational arithmetic
+    and Python's float64 `h * ratio` can round differently).  `int(h * scale)` needs no skip: the model
+    takes that product in float64 too (`Num.mulTrunc`, `roundF64`)."""
     targets = [target_hw(cfg, max_hw)]
     for v in spec["videos"]:
         for mh, mw in targets:
@@ -756,6 +825,9 @@ def run_case(chk, spec, cfg, alias, tmp, tag, do_model=True, np_dir=None, np_exi
     sub = tempfile.mkdtemp(dir=tmp)
     try:
         fwout, max_hw, max_inst, counts = run_frameworks(spec, cfg, sub, np_dir=np_dir, np_existing=np_existing)
+    except ProviderMismatch as e:
+        chk.fail(f"C18 fails: {e}", {"spec": spec, "cfg": cfg}, str(e))
+        return 0, [str(e)]
     finally:
         shutil.rmtree(sub, ignore_errors=True)
     if knife_edge(spec, cfg, max_hw):
@@ -799,6 +871,16 @@ def run_case(chk, spec, cfg, alias, tmp, tag, do_model=True, np_dir=None, np_exi
                      signatures(spec, cfg, max_hw, max_inst, fr))
         chk.tag("frame_counts_checked")
     hist = history_order(len(idx))
+    if np_existing and len({i for i, _ in fwout["np"]}) != len(idx):
+        # use_existing_chunks=True serves the directory: with surplus files of an earlier dataset its
+        # length is the number of files (F-C18e).  Reported through the oracle only (the model's
+        # `npDataset true` says the same: `np_chunks_existing_dirty_counterexample`).
+        n_np = len({i for i, _ in fwout["np"]})
+        surplus = bool(prior) and len(sample_index(prior["spec"], prior["cfg"]["mt"], bool(prior["cfg"].get("uio", True)))) > len(idx)
+        msg = f"np_chunks dataset with use_existing_chunks=True has {n_np} samples, the in-memory dataset of the same labels {len(idx)}"
+        chk.fail(f"C18 fails ({mt}): {msg}", case, {"np": n_np, "mem": len(idx)},
+                 ["existing_chunks_directory_with_surplus_files"] if surplus and n_np > len(idx) else [])
+        return 0, [msg]
     for fw in FWS:
         if len(fwout[fw]) != len(hist):
             n_fw = {f: len({i for i, _ in fwout[f]}) for f in FWS}
@@ -856,7 +938,8 @@ def run_case(chk, spec, cfg, alias, tmp, tag, do_model=True, np_dir=None, np_exi
                     chk.disagree("hypothesis padStride∘quant8 = quant8∘padStride", {**case, "index": i},
                                  float((a_ - b_).abs().max()), 0.0)
                 chk.tag("hyp_pad_quant_commute_checked")
-        fails = oracle(mt, cs, has_empty, mag) if in_region else []
+        sig_eff = min(float(cfg["cm"][0]) * cfg["cm"][1], float(cfg["paf"][0]) if mt == "bottomup" else 1e9)
+        fails = oracle(mt, cs, has_empty, mag, sig_eff, pad_ok=bool(cfg.get("chunk_max_inst"))) if in_region else []
         if fails:
             all_fails += fails
             chk.fail(f"C18 fails ({mt}, scale {cfg['scale']}" + (f", fetch #{here['fetch_number']} of the index" if refetch else "")
@@ -875,7 +958,9 @@ def run_case(chk, spec, cfg, alias, tmp, tag, do_model=True, np_dir=None, np_exi
                        f"region:{tag}", "eff_exact" if exact else "eff_tolerance",
                        f"disagree:{bad}", f"is_rgb:{cfg['is_rgb']}/channels:{spec['videos'][0]['c']}",
                        f"videos:{len(spec['videos'])}" + ("(different sizes)" if len({(v['h'], v['w']) for v in spec['videos']}) > 1 else ""),
-                       "cfg_max:" + ("none" if not cfg["cfg_max"] else "both" if None not in cfg["cfg_max"] else "one component")])
+                       "cfg_max:" + ("none" if not cfg["cfg_max"] else "both" if None not in cfg["cfg_max"] else "one component"),
+                       "sizematch:" + sizematch_tag(spec, cfg, max_hw, fr),
+                       "scale_dyadic" if is_dyadic(Fraction(float(cfg["scale"]))) else "scale_non_dyadic"])
     return len(idx), all_fails
 
 
@@ -1167,6 +1252,58 @@ def check_blocks(chk, alias, n):
     check_defaults(chk)
 
 
+def check_sizematcher(chk):
+    """The ninth pair: `SizeMatcher` (legacy block, used by every pipeline of pipelines.py) vs
+    `apply_sizematcher`.  Model: `dpSizeMatcher` / `fnSizeMatch` (a plan: resize target + eff_scale, or
+    raise).  They agree only when the frame already has the target size (`datapipe_sizematcher_partial`);
+    everything else is finding F-C18d (`datapipe_sizematcher_counterexample`)."""
+    np, torch, rs, F = E["np"], E["torch"], E["rs"], E["F"]
+    rng = chk.rng
+    geoms = [(40, 56, 40, 56), (40, 56, 48, 70), (40, 56, 40, 64), (40, 56, 80, 112), (50, 70, 60, 70),
+             (64, 64, 48, 48), (47, 62, 47, 40), (40, 56, 56, 40)]
+    outs = run_driver("C18.lean", [f"dp sizematcher {h} {w} {mh} {mw}" for h, w, mh, mw in geoms])
+    for (h, w, mh, mw), o in zip(geoms, outs):
+        c = rng.choice([1, 3])
+        raw = make_image(rng.randrange(10 ** 6), h, w, c)
+        img_f = torch.from_numpy(np.transpose(raw, (2, 0, 1))[None].copy()).to(torch.float32) / 255.0
+        kp = torch.tensor([[[[8.0, 6.5], [20.25, 30.0]]]])
+        case = {"pair": "SizeMatcher/apply_sizematcher", "h": h, "w": w, "c": c, "max_height": mh, "max_width": mw}
+        blk = call(lambda: list(rs.SizeMatcher([{"image": img_f.clone(), "instances": kp.clone()}],
+                                               max_height=mh, max_width=mw))[0])
+        fn = call(lambda: rs.apply_sizematcher(img_f.clone(), max_height=mh, max_width=mw))
+        f = parse_fields(o)
+        chk.case(("SizeMatcher", h, w, mh, mw), None, tags=["block:SizeMatcher"])
+        # model correspondence, block
+        if f["block"] == "raise":
+            if blk[0] != "raise":
+                chk.disagree("dpSizeMatcher == SizeMatcher", case, "ok", "raise")
+        elif blk[0] == "raise":
+            chk.disagree("dpSizeMatcher == SizeMatcher", case, f"raise {blk[1:]}", f["block"])
+        else:
+            want = F.pad(img_f, (0, mw - w, 0, mh - h), mode="constant").to(torch.float32)
+            if not teq(blk[1]["image"], want) or not teq(blk[1]["instances"], kp):
+                chk.disagree("dpSizeMatcher == SizeMatcher (zero padding, keypoints untouched)", case, "differs", f["block"])
+        # model correspondence, function
+        th, tw, eff = f["fn"].split()
+        if fn[0] == "raise":
+            chk.disagree("fnSizeMatch == apply_sizematcher", case, f"raise {fn[1:]}", f["fn"])
+        else:
+            want = interp(["sizematch", mh, mw, th, tw, ["norm", "raw"]], raw).float()
+            e = close_img(fn[1][0].float(), want, IMG_TOL)
+            if e or abs(float(fn[1][1]) - float(Fraction(eff))) > 1e-12:
+                chk.disagree("fnSizeMatch == apply_sizematcher", case, f"{e}, eff {fn[1][1]}", f["fn"])
+        # the property clause itself: block output == function output (image; keypoint factor 1)
+        same = (blk[0] == "ok" and fn[0] == "ok" and teq(blk[1]["image"].float(), fn[1][0].float())
+                and float(fn[1][1]) == 1.0)
+        if not same:
+            what = "raises" if blk[0] == "raise" else (
+                f"max |Δ| = {float((blk[1]['image'] - fn[1][0]).abs().max()):.3g}, function eff_scale {float(fn[1][1]):.4g} (block leaves keypoints unscaled)")
+            chk.fail(f"C18 fails: DataPipe block SizeMatcher differs from apply_sizematcher on a {h}x{w} frame, max {mh}x{mw}: {what}",
+                     case, what, ["sizematcher_pair_frame_differs_from_max"] if (h, w) != (mh, mw) else [])
+        if (h, w, mh, mw) == (40, 56, 48, 70) and any(k["id"] == "F-C18d" for k in chk.known):
+            chk.known_replay("F-C18d", still_fails=not same, detail="SizeMatcher == apply_sizematcher on the witness")
+
+
 def _flat(x):
     if isinstance(x, (list, tuple)):
         out = []
@@ -1261,17 +1398,22 @@ def main(chk: Check):
         rng = chk.rng
         # (1) the region the statement covers: every model type at scale 1, three of them at any scale;
         #     every other case sets max_height and/or max_width in the config (covered since 3fdd300)
+        #     (up- and down-scaling values), every fifth gets the max_hw of another (train) labels object
         for mt in MTS:
             for j in range(chk.n(5, 40)):
-                run_case(chk, *gen_case(rng, mt=mt, scale=1.0, cfg_override=(j % 2 == 1)), alias, tmp, "scale1")
+                run_case(chk, *gen_case(rng, mt=mt, scale=1.0, cfg_override=(j % 2 == 1), max_hw_mode=(j % 5 == 2)),
+                         alias, tmp, "scale1")
         for mt in ("single", "centroid", "bottomup"):
             for j in range(chk.n(5, 50)):
-                sc = rng.choice([0.5, 0.25, 0.75, 1.5, 2.0, 0.625, 1.25])
-                run_case(chk, *gen_case(rng, mt=mt, scale=sc, cfg_override=(j % 3 == 2)), alias, tmp, "any_scale")
+                # dyadic and ordinary user values alike: the model takes int(h*scale) in float64 as CPython does
+                sc = [0.5, 0.7, 0.25, 0.3, 0.75, 0.9, 1.5, 1.1, 2.0, 0.625, 1.25][(j + MTS.index(mt) * 3) % 11] \
+                    if j < 11 else rng.choice([0.5, 0.25, 0.75, 1.5, 2.0, 0.625, 1.25, 0.3, 0.7, 0.9, 1.1])
+                run_case(chk, *gen_case(rng, mt=mt, scale=sc, cfg_override=(j % 3 == 2), max_hw_mode=(j % 5 == 3)),
+                         alias, tmp, "any_scale")
         # (2) outside the statement: centred instance at scale != 1 — correspondence only (the model says
         #     what each framework does there; no agreement is claimed or checked)
         for _ in range(chk.n(4, 30)):
-            sc = rng.choice([0.5, 0.75, 1.5, 2.0])
+            sc = rng.choice([0.5, 0.75, 1.5, 2.0, 0.7, 0.9])
             run_case(chk, *gen_case(rng, mt="centered", scale=sc), alias, tmp, "centered_scaled")
         # (3) single-animal labels with a stray second (empty) instance — covered since b2232cf (F-C18b
         #     fixed) — and the region of the `known` finding F-C18c (a frame with only empty instances):
@@ -1305,8 +1447,40 @@ def main(chk: Check):
                 run_case(chk, *gen_case(rng, mt=mt, scale=sb, cfg_override=rng.random() < 0.5), alias, tmp,
                          "dir_reuse:B_rewrites", np_dir=d, prior=prior)
                 shutil.rmtree(d, ignore_errors=True)
+        # (3c) use_existing_chunks=True on a directory with surplus files (F-C18e, known): A fills, a
+        #      smaller B rewrites, then B reads with use_existing_chunks=True
+        dirty_fails = False
+        for _ in range(chk.n(1, 4)):
+            mt = rng.choice(MTS)
+            sc = 1.0 if mt == "centered" else rng.choice([1.0, 0.5])
+            while True:
+                specA, cfgA = gen_case(rng, mt=mt, scale=sc)
+                specB, cfgB = gen_case(rng, mt=mt, scale=sc)
+                nA = len(sample_index(specA, mt, bool(cfgA.get("uio", True))))
+                nB = len(sample_index(specB, mt, bool(cfgB.get("uio", True))))
+                if nB < nA:
+                    break
+            d = tempfile.mkdtemp(dir=tmp, prefix="dirty_")
+            prior = {"spec": specA, "cfg": cfgA}
+            run_case(chk, specA, cfgA, alias, tmp, "dirty_dir:A_writes", np_dir=d)
+            run_case(chk, specB, cfgB, alias, tmp, "dirty_dir:B_rewrites", np_dir=d, prior=prior)
+            _, fails = run_case(chk, specB, cfgB, alias, tmp, "dirty_dir:B_existing_chunks", np_dir=d,
+                                np_existing=True, prior=prior)
+            dirty_fails = dirty_fails or bool(fails)
+            shutil.rmtree(d, ignore_errors=True)
+        if any(f["id"] == "F-C18e" for f in chk.known):
+            chk.known_replay("F-C18e", still_fails=dirty_fails, detail="use_existing_chunks=True on a directory with surplus files serves only its own samples")
+        # (3d) val glue: the chunk functions are handed a larger max_instances (the TRAIN labels') than the
+        #      torch dataset computes from its own (validation) labels — only NaN padding rows may differ
+        #      (`val_glue_only_padding`); the model gets `chunkMaxInst`
+        for mt in ("bottomup", "centroid", "centered"):
+            for _ in range(chk.n(1, 6)):
+                spec, cfg = gen_case(rng, mt=mt, scale=1.0 if mt == "centered" else rng.choice([1.0, 0.5, 0.7]))
+                cfg["chunk_max_inst"] = max(len(fr["insts"]) for fr in spec["frames"]) + rng.choice([1, 2, 3])
+                run_case(chk, spec, cfg, alias, tmp, "val_glue:chunk_max_instances_from_train_labels")
         # (4) DataPipe blocks
         check_blocks(chk, alias, chk.n(10, 60))
+        check_sizematcher(chk)
     finally:
         shutil.rmtree(tmp, ignore_errors=True)
 
@@ -1347,6 +1521,11 @@ if __name__ == "__main__":
             "targets: the repo's generate_confmaps / generate_multiconfmaps / generate_pafs interpret the model's target "
             "specifications (their own correctness is C01/C05)",
             "litdata storage (optimize + chunk reader) is bypassed: assumed to return what the chunk function produced",
+            "max_hw / max_instances are RECORDED from providers.get_max_height_width / get_max_instances and handed to "
+            "the model and to every framework alike (cross-checked against the spec on every case: max video size, max "
+            "len(lf.instances)); likewise the `aliasing` probe of generate_centroids",
+            "entry-point glue (ModelTrainer, training/get_bin_files.py) is not driven; its two known asymmetries are "
+            "reproduced by hand: a dataset handed another labels object's max_hw, chunk functions handed another max_instances",
             "float32 evaluation of eff_scale·scale products stays within 2e-6 relative + 1e-6·(frame size·scale) absolute "
             "(measured); compared exactly on dyadic cases",
         ],
